@@ -228,7 +228,13 @@ def judge(d, wm, res, tier):
             for i in ids:
                 w_, Xv = fds.get_voltage(i)
                 w_, Xi = fds.get_current(i)
+                w_, Xp = fds.get_power(i)
                 for k, w in enumerate(exp_w):
+                    # the power line at w_k is the complex power of the peak phasors at that frequency
+                    if w != 0 and abs(complex(Xp[k]) - 0.5 * complex(Xv[k]) * complex(Xi[k]).conjugate()) > rtol * s_phi * s_i:
+                        add_violation(res, "line_is_phasor", case, 0.5 * complex(Xv[k]) * complex(Xi[k]).conjugate(), complex(Xp[k]), "power line of %s at w=%s is not V*conj(I)/2 of its own voltage and current lines" % (i, w))
+                        bad = True
+                        break
                     b = [x for x in lines[w][2]["branches"] if x[3] == i][0]
                     ev = lines[w][0][b[0]] - lines[w][0][b[1]]
                     if abs(complex(Xv[k]) - ev) > rtol * s_phi or abs(complex(Xi[k]) - lines[w][1][i]) > rtol * s_i:
@@ -245,7 +251,7 @@ def judge(d, wm, res, tier):
         two = FrequencyDomainSolution(circuit=circ, w_max=float(w_max), one_sided=False)
         res["transitions"] += 1
         one = FrequencyDomainSolution(circuit=circ, w_max=float(w_max))
-        for getter, name, scale in (("get_potential", nodes[-1], s_phi), ("get_voltage", ids[0], s_phi), ("get_current", ids[-1], s_i)):
+        for getter, name, scale in (("get_potential", nodes[-1], s_phi), ("get_voltage", ids[0], s_phi), ("get_current", ids[-1], s_i), ("get_power", ids[0], s_phi * s_i), ("get_power", ids[-1], s_phi * s_i)):
             w2, X2 = getattr(two, getter)(name)
             w1, X1 = getattr(one, getter)(name)
             w2 = [float(x) for x in w2]
